@@ -131,6 +131,21 @@ pub fn generate_bigram_info(
         }
     }
 
+    // The ids must be dense from 0 (BOS/EOS): without a line for ID 0 the loops below would
+    // silently leave out the last ID.
+    if !left_features.contains_key(&0) {
+        return Err(VibratoError::invalid_format(
+            "right_id_def_rdr",
+            "feature ID 0 is undefined",
+        ));
+    }
+    if !right_features.contains_key(&0) {
+        return Err(VibratoError::invalid_format(
+            "left_id_def_rdr",
+            "feature ID 0 is undefined",
+        ));
+    }
+
     let mut bigram_right_wtr = BufWriter::new(bigram_right_wtr);
     for id in 1..left_features.len() {
         write!(&mut bigram_right_wtr, "{id}\t")?;
